@@ -1,5 +1,5 @@
+import Secp.Proofs.FrontBip
 import Secp.Proofs.DriversDerive
-import Secp.Proofs.DriversFront
 import Secp.Proofs.DriversAdaptor
 import Secp.Proofs.DriversChild
 import Secp.Proofs.Bip32
@@ -115,14 +115,14 @@ theorem serializeCompressedEcdsa_regenerated (x y : Nat) :
 theorem child_front (O : Oracles) (k : Bytes × Nat × Bytes × Nat × Bytes × Bytes × Unit) (i : Nat) :
     Secp.Gen.Drivers.childGen O k i = (match Secp.Gen.Drivers.childWithILGen O k i with
       | .ok (_, ek) => DR.ok ek | .err e => DR.err e | .panic => DR.panic | .fuel => DR.fuel | .undef => DR.undef) :=
-  Secp.Proofs.DriversFront.child_front O k i
+  Secp.Proofs.FrontBip.child_front O k i
 
 theorem fromSeed_regenerated (O : Oracles) (seed ms : Bytes) :
     Secp.Gen.Drivers.fromSeedGen O seed ms = (match fromSeed O seed ms with | .ok e => DR.ok (tup e) | .error err => DR.err err) :=
-  Secp.Proofs.DriversFront.fromSeed_regenerated O seed ms
+  Secp.Proofs.FrontBip.fromSeed_regenerated O seed ms
 
 theorem public_regenerated (e : ExtKey) : Secp.Gen.Drivers.publicGen (tup e) = DR.ok (tup e.neuter) :=
-  Secp.Proofs.DriversFront.public_regenerated e
+  Secp.Proofs.FrontBip.public_regenerated e
 
 
 /-- `DeriveWithIL` (the loop over the path with its accumulated tweak, a nil-able big integer) regenerated =
@@ -145,6 +145,6 @@ theorem derive_regenerated (O : Oracles) (hfp : ∀ x, 4 ≤ (O.hash160 x).lengt
 theorem fromBitcoinSeed_front (O : Oracles) (seed : Bytes) :
     Secp.Gen.Drivers.fromBitcoinSeedGen O seed =
       Secp.Gen.Drivers.fromSeedGen O seed [0x42, 0x69, 0x74, 0x63, 0x6f, 0x69, 0x6e, 0x20, 0x73, 0x65, 0x65, 0x64] :=
-  Secp.Proofs.DriversFront.fromBitcoinSeed_front O seed
+  Secp.Proofs.FrontBip.fromBitcoinSeed_front O seed
 
 end Secp.Props.C12
